@@ -72,7 +72,7 @@ func (rs *RunSummary) Finish(wall time.Duration) int {
 			rs.machinery = append(rs.machinery, fmt.Sprintf("%s: ABORT %s @ %s", h.Name, a.Verdict.Label, a.Verdict.Func))
 		}
 		if hr.Inconc > 0 {
-			rs.machinery = append(rs.machinery, fmt.Sprintf("%s: %d inconclusive solver answers (timeout/unknown)", h.Name, hr.Inconc))
+			rs.machinery = append(rs.machinery, fmt.Sprintf("%s: %d inconclusive solver answers (timeout/unknown), last at %s", h.Name, hr.Inconc, hr.InconcAt))
 		}
 		if hr.Truncated {
 			rs.machinery = append(rs.machinery, fmt.Sprintf("%s: exploration truncated by budget after %d paths", h.Name, hr.Paths))
@@ -124,7 +124,11 @@ func (rs *RunSummary) reportViolation(h harnessSummary, v *PathResult) {
 		rs.violations++
 		return
 	}
-	native, cmd, err := NativeReplay(rs.Opt, h.Pkg, h.Name, path, 60*time.Second)
+	to := 60 * time.Second
+	if v.Verdict.Kind == "UNWIND" || v.Verdict.Kind == "ALLOC" || v.Verdict.Kind == "DEADLOCK" {
+		to = 20 * time.Second
+	}
+	native, cmd, err := NativeReplay(rs.Opt, h.Pkg, h.Name, path, to)
 	rf.Native = native
 	rf.Cmd = cmd
 	write()
